@@ -197,8 +197,64 @@ def extra_checks(ck, tier, rng):
         kinds[{0: 'ended normally', 1: 'BibTeX error', 2: 'foreign exception', 3: 'did not end'}.get(o[0] if o and isinstance(o[0], int) else -1, 'other')] += 1
         if o[:1] == [2]:
             fails.append((describe(1, arg), 'accepted by the type checker, yet the implementation raised a foreign exception', True))
+    yield _engine_encodings(tier, rng)
     yield {'name': 'welltyped_no_crash_on_impl', 'evaluations': len(cases), 'failures': fails[:5],
            'info': {'accepted_by_stream': {k: '%d/%d' % (accd[k], per[k]) for k in sorted(per)}, 'outcomes_of_accepted': dict(kinds)}}
+
+
+def _engine_encodings(tier, rng):
+    """BibTeXEngine.format_from_files / format_from_strings with bib_encoding / bst_encoding / output_encoding: a
+    non-ASCII string literal of the .bst and a non-ASCII field of the .bib must come out verbatim in the output decoded
+    with output_encoding.  Pure oracle on the implementation (the model has no notion of encodings)."""
+    import tempfile, shutil, itertools
+    from pybtex import errors
+    import pybtex.bibtex
+    ENC = ['utf-8', 'latin-1', 'utf-16']
+    def rep(t, enc):
+        try:
+            t.encode(enc); return True
+        except UnicodeError:
+            return False
+    fails, n = [], 0
+    d = tempfile.mkdtemp()
+    try:
+        for lit, fld in [('\u00e9', '\u00fc'), ('\u0416', '\u00e9'), ('\u4e2d', '\u0416'), ('\u00e9 \u0416 \u4e2d', 'x')]:
+            for be, se, oe in itertools.product(ENC, ENC, ENC):
+                if not (rep(fld, be) and rep(lit, se) and rep(lit + fld, oe)):
+                    continue
+                if tier == 'quick' and rng.random() < 0.5 and (be, se, oe) != ('latin-1', 'utf-8', 'utf-8') and se == be:
+                    continue
+                bst = 'ENTRY { title } { } { }\nFUNCTION { show } { "[%s]" write$ title write$ newline$ }\nREAD\nITERATE { show }\n' % lit
+                bib = '@misc{k, title = {x%sy}}\n' % fld
+                want = '[%s]x%sy\n' % (lit, fld)
+                with open(os.path.join(d, 's.bst'), 'wb') as f: f.write(bst.encode(se))
+                with open(os.path.join(d, 'b.bib'), 'wb') as f: f.write(bib.encode(be))
+                out = os.path.join(d, 'o.bbl')
+                for api in ('files', 'files_return', 'string'):
+                    n += 1
+                    desc = {'api': 'format_from_' + api, 'bst_literal': lit, 'bib_field': fld, 'bib_encoding': be, 'bst_encoding': se, 'output_encoding': oe}
+                    try:
+                        with errors.capture() as cap:
+                            if api == 'files':
+                                pybtex.bibtex.format_from_files([os.path.join(d, 'b.bib')], style=os.path.join(d, 's'), citations=['*'],
+                                                                bib_encoding=be, bst_encoding=se, output_encoding=oe, output_filename=out)
+                                got = open(out, 'rb').read().decode(oe)
+                            elif api == 'files_return':
+                                got = pybtex.bibtex.format_from_files([os.path.join(d, 'b.bib')], style=os.path.join(d, 's'), citations=['*'],
+                                                                     bib_encoding=be, bst_encoding=se, output_encoding=oe)
+                            else:
+                                got = pybtex.bibtex.format_from_string(bib, style=os.path.join(d, 's'), citations=['*'],
+                                                                      bib_encoding=be, bst_encoding=se, output_encoding=oe)
+                        if cap:
+                            fails.append((desc, 'errors were reported: %r' % [str(e) for e in cap][:2], True))
+                        elif got != want:
+                            fails.append((desc, 'output %r, expected the literal and the field verbatim: %r' % (got, want), True))
+                    except Exception as e:
+                        fails.append((desc, 'raised %s: %s' % (type(e).__name__, str(e)[:120]), True))
+    finally:
+        shutil.rmtree(d, ignore_errors=True)
+    return {'name': 'engine_encodings', 'evaluations': n, 'failures': fails[:5],
+            'info': 'non-ASCII .bst literals and .bib fields x bib_encoding / bst_encoding / output_encoding in {utf-8, latin-1, utf-16} through format_from_files (to a file, returned) and format_from_string'}
 
 def canon(fn, out):
     out = canon_res(out)
